@@ -160,6 +160,16 @@ pub fn eval_builtin_le(
         return Err(());
     }
 
+    // The bytes are swapped one by one over the declared size
+    if bigint.size.unwrap() as u64 >= util::BIGINT_MAX_BITS
+    {
+        query.report.error_span(
+            "value is out of supported range",
+            query.args[0].span);
+
+        return Err(());
+    }
+
     Ok(expr::Value::make_integer(bigint.convert_le()))
 }
 
